@@ -35,10 +35,11 @@ impl TupleAccess {
 
 impl ReturnType for TupleAccess {
     fn return_type(&self) -> crate::variable::Type {
+        // None only for an operand of static type `!` (e.g. narrowed to a diverging branch by the folding pass)
         self.tuple
             .return_type()
             .tuple_element_at(self.index)
-            .unwrap()
+            .unwrap_or(crate::variable::Type::Never)
     }
 }
 
